@@ -376,7 +376,10 @@ def Encoded.authorised (lowSOnly : Bool) (e : Encoded) (sender : Nat) (senderSig
   (e.payerSigs.isEmpty || checkSignersWeight lowSOnly payer payerSigners e.payerSigs) &&
   checkSignersWeight lowSOnly sender senderSigners e.sigs
 
-/-! ### the miner (dpovp.go MineBlock / tx_pool.go GetTxs): the guard is NOT consulted -/
+/-! ### the miner (dpovp.go MineBlock / tx_pool.go GetTxs): `GetTxs` does not consult the guard.
+    Since /repo fix 609d2a8 `MineBlock` itself puts every candidate that passed `VerifyTxBody` to
+    `txGuard.ExistTx(parent, tx)`: that step, and the pool around it, is modelled in LemoModel/PoolGuard.lean
+    (`assemble`); `minePack` below is the candidate list BEFORE that filter. -/
 
 /-- `TxPool.GetTxs(time)`: everything not timed out (`isTxTimeOut`).  NOTE: a tx whose expiration is
     more than MaxTxLifeTime AFTER `time` is not filtered here (only the pool's entry paths check that,
